@@ -294,11 +294,11 @@ fn main() {
     let to_model = !args.oracle_only;
     let depth = if thorough { 7 } else { 5 };
     let mut n = 0;
-    n += exhaustive(true, depth, 15, 1, args.seed, if thorough { 4001 } else { 211 }, args.oracle_only);
-    n += exhaustive(true, depth, 13, 1, args.seed, if thorough { 4001 } else { 211 }, args.oracle_only);
+    n += exhaustive(true, depth, 15, 1, args.seed, if thorough { 4001 } else { 431 }, args.oracle_only);
+    n += exhaustive(true, depth, 13, 1, args.seed, if thorough { 4001 } else { 431 }, args.oracle_only);
     // peer sharing not negotiated: the ShareRequest emitter must stay silent
-    n += exhaustive(true, depth.min(4), 13, 0, args.seed, if thorough { 4001 } else { 211 }, args.oracle_only);
-    n += exhaustive(false, depth.min(6), 15, 1, args.seed, if thorough { 9001 } else { 401 }, args.oracle_only);
+    n += exhaustive(true, depth.min(4), 13, 0, args.seed, if thorough { 4001 } else { 431 }, args.oracle_only);
+    n += exhaustive(false, depth.min(6), 15, 1, args.seed, if thorough { 9001 } else { 809 }, args.oracle_only);
     emit_stat("exhaustive_schedules_oracle", n);
     // ---- directed async schedules: one per protocol emitter, each reaching that emitter a second time
     // while its first emission is still unconfirmed (the known class), everything else confirmed
